@@ -24,6 +24,7 @@ func verifAdvanceTime()
 func verifSymbolicClock()
 func verifHelperExit(code int)
 func verifHelperOutput(b []byte)
+func verifHelperCloseOutput() // the helper closes its stdout without exiting
 func verifHelperState() int
 
 // stub file system (symbolic) / sandbox directory (native); see engine/fs.go
